@@ -69,3 +69,16 @@ impl<'l, Data> SourceList<'l, Data> {
         }
     }
 }
+
+#[cfg(calloop_verif)]
+impl<Data> SourceList<'_, Data> {
+    pub(crate) fn verif_slots(&self) -> Vec<(u32, u16, bool)> {
+        self.sources
+            .iter()
+            .map(|e| {
+                let (id, version, _) = e.token.verif_parts();
+                (id, version, e.source.is_some())
+            })
+            .collect()
+    }
+}
